@@ -14,7 +14,9 @@ import LocustModel.Store.Crash
   mode   live | open | reopen | flush | l2 (with rtrace = the child's recovery callbacks, j = prefix length)
   impl1  output of the first open of the crash state;  impl = output of this case
 
-  Output:  <model prediction> TAB <OK | BAD reason> [TAB finding id]
+  Output:  <model prediction> TAB <OK | BAD reason>
+  (finding C09-wal-temp is fixed in /repo and mirrored in `LM.Crash.scanFilter`; no classifier is left here: a state with a
+   temp file in wal/ that fails to open is a VIOLATION again)
 -/
 namespace LM.DrvC09
 open LM LM.Proto LM.Crash
@@ -198,8 +200,8 @@ def simulate (io : Nat) (ops : List POp) (obs : List String) (at_ : Nat) : Excep
 
 /-! ### second level: recovery of a crash state, crashed again -/
 
-/-- Apply the first `j` effects of the observed recovery trace, checking that it is a legal interleaving of the predicted
-    deletions. -/
+/-- Apply the first `j` effects of the observed recovery trace, checking that it is an interleaving of the predicted
+    deletions (stale temp files of wal/, obsolete segments). -/
 def recoveryPrefix (fs : FS) (dels : List Path) (rtrace : List String) (j : Nat) : Except String FS := do
   let s0 : Sim := { fs := fs, at_ := j, obs := rtrace.toArray, crash := if j = 0 then some (fs, []) else none }
   let s ← runPool s0 ((recoverPhase dels).tasks.map (·.effs)) true none
@@ -250,13 +252,6 @@ def judge (ops : List POp) (nack infl : Nat) (mode impl1 impl : String) : String
   else if (mode = "reopen" ∨ mode = "l2") ∧ impl ≠ impl1 then "BAD recovering again changed the content"
   else "OK"
 
-/-! ### known finding: a crash prefix leaves a file in wal/ whose name does not end in `.wal` -/
-
-def walTempPresent (fs : FS) (keys : List Path) : Bool :=
-  keys.any fun p => inWalDir p && p.tmp && (fs p).isSome
-
-def findingId : String := "C09-wal-temp"
-
 /-! ### one case -/
 
 /-- `delete_wal_segments`: with `io_threads > 1` the failing `delete(..).unwrap()` runs in a pool job (swallowed panic, the
@@ -264,50 +259,46 @@ def findingId : String := "C09-wal-temp"
 def flushFailTok (io : Nat) : String := if io > 1 then "hang" else "panic"
 
 def predict (io : Nat) (ops : List POp) (obs : List String) (at_ : Nat) (mode : String) (rtrace : List String) (j : Nat) :
-    String × Bool :=
+    String :=
   match simulate io ops obs at_ with
-  | .error e => (e, false)
+  | .error e => e
   | .ok s =>
-      if mode = "live" then (dumpMem s.mem, false) else
+      if mode = "live" then dumpMem s.mem else
       match s.crash with
-      | none => ("no-crash-state", false)
+      | none => "no-crash-state"
       | some (fs, keys) =>
-          let known := walTempPresent fs keys
           let ls := listing fs keys
           match recover fs ls with
-          | .error o => (outcomeTok o, known)
+          | .error o => outcomeTok o
           | .ok (m, dels) =>
               let d1 := dumpMem m
-              if mode = "open" then (d1, known)
+              if mode = "open" then d1
               else if mode = "reopen" then
                 let fs' := applyEffs fs ((recoverPhase dels).tasks.flatMap (·.effs))
                 match recover fs' (listing fs' keys) with
-                | .error o => (outcomeTok o, known)
-                | .ok (m', _) => (dumpMem m', known)
+                | .error o => outcomeTok o
+                | .ok (m', _) => dumpMem m'
               else if mode = "l2" then
                 match recoveryPrefix fs dels rtrace j with
-                | .error e => (e, known)
+                | .error e => e
                 | .ok fs' =>
                     match recover fs' (listing fs' keys) with
-                    | .error o => (outcomeTok o, known)
-                    | .ok (m', _) => (dumpMem m', known)
+                    | .error o => outcomeTok o
+                    | .ok (m', _) => dumpMem m'
               else if mode = "flush" then
                 let fs' := applyEffs fs ((recoverPhase dels).tasks.flatMap (·.effs))
-                if flushCompletes fs' m then (s!"{d1}|ok|{d1}|{d1}", known)
-                else (s!"{d1}|{flushFailTok io}|?|?", known)
-              else ("bad-mode", known)
+                if flushCompletes fs' m then s!"{d1}|ok|{d1}|{d1}"
+                else s!"{d1}|{flushFailTok io}|?|?"
+              else "bad-mode"
 
 def step (line : String) : String :=
   match splitTokens line with
   | ["crash", io, _cf, ops, trace, at_, _trunc, nack, infl, mode, rtrace, j, impl1, impl] =>
       match io.toNat?, (ops.splitOn ";").mapM parseOp, at_.toNat?, nack.toNat?, infl.toNat?, j.toNat? with
       | some io, some ops, some at_, some nack, some infl, some j =>
-          let (model, known) := predict io ops (parseTrace trace) at_ mode (parseTrace rtrace) j
+          let model := predict io ops (parseTrace trace) at_ mode (parseTrace rtrace) j
           let spec := judge ops nack infl mode impl1 impl
-          -- the post-recovery flush of a state inside the finding's region: the model predicts the failure but not the dumps after it
-          let model := if model.endsWith "|?|?" ∧ (impl.splitOn "|").length = 4 ∧ (impl.splitOn "|").take 2 = (model.splitOn "|").take 2
-                          then impl else model
-          model ++ "\t" ++ spec ++ (if known then "\t" ++ findingId else "")
+          model ++ "\t" ++ spec
       | _, _, _, _, _, _ => "bad-op\tbad-op"
   | _ => "bad-op\tbad-op"
 
